@@ -254,28 +254,29 @@ def repo_hash(files):
 
 
 def parallel(cmds, cwd=None, env=None, timeout=3000, jobs=NCPU):
-    """run shell commands concurrently, at most `jobs` at a time; returns list of (rc, out)"""
+    """run shell commands concurrently, at most `jobs` at a time; returns list of (rc, out).
+    Output is drained while the command runs (a command that prints more than a pipe buffer
+    must not block), and a command that exceeds the timeout is killed with its children."""
+    from concurrent.futures import ThreadPoolExecutor
     e = dict(os.environ); e.update({"CARGO_NET_OFFLINE": "true"})
     if env: e.update(env)
-    res = [None] * len(cmds)
-    running = []
-    idx = 0
-    t0 = time.time()
-    while idx < len(cmds) or running:
-        while idx < len(cmds) and len(running) < jobs:
-            p = subprocess.Popen(cmds[idx], cwd=cwd, env=e, shell=True, stdout=subprocess.PIPE,
-                                 stderr=subprocess.STDOUT, text=True, errors="replace")
-            running.append((idx, p)); idx += 1
-        still = []
-        for i, p in running:
-            if p.poll() is None:
-                if time.time() - t0 > timeout:
-                    p.kill(); res[i] = (124, "timeout")
-                else:
-                    still.append((i, p))
-            else:
-                res[i] = (p.returncode, p.stdout.read())
-        running = still
-        if running:
-            time.sleep(0.02)
-    return res
+    def one(cmd):
+        p = subprocess.Popen(cmd, cwd=cwd, env=e, shell=True, stdout=subprocess.PIPE,
+                             stderr=subprocess.STDOUT, text=True, errors="replace", start_new_session=True)
+        try:
+            out, _ = p.communicate(timeout=timeout)
+            return (p.returncode, out)
+        except subprocess.TimeoutExpired:
+            try:
+                os.killpg(p.pid, 9)
+            except Exception:
+                p.kill()
+            try:
+                p.communicate(timeout=5)
+            except Exception:
+                pass
+            return (124, "timeout")
+    if not cmds:
+        return []
+    with ThreadPoolExecutor(max_workers=max(1, jobs)) as ex:
+        return list(ex.map(one, cmds))
